@@ -424,6 +424,24 @@ def _c10_fixed():
     return out
 
 
+def _c08_fixed():
+    """Transmit latency on the final RA itself (and on a transmission in flight at the stop): the write is held open
+    across 0.5 .. 30 s of virtual time; Run may only return after it, and nothing may follow it."""
+    out = []
+    for cfgv in (DEF["cfg"], FAST["cfg"], SRV["cfg"]):
+        for d in (500, 1500, 5000, 30000):
+            for term in (True, False):
+                steps = [{"op": "adv", "to": 5000}, {"op": "hold", "key": "w|allnodes"}, {"op": "cancel", "term": term},
+                         {"op": "adv", "to": 5000 + d}, {"op": "release", "key": "w|allnodes"}, {"op": "adv", "to": 5000 + d + 2000}]
+                out.append({"cfg": dict(cfgv), "steps": steps, "src": "slow-final-ra"})
+                steps = [{"op": "adv", "to": 5000}, {"op": "hold", "key": "w|fe80::a1"}, {"op": "rs", "src": "fe80::a1"}, {"op": "adv", "to": 5600},
+                         {"op": "cancel", "term": term}, {"op": "adv", "to": 5600 + d}, {"op": "release", "key": "w|fe80::a1"},
+                         {"op": "adv", "to": 5600 + d + 2000}]
+                out.append({"cfg": dict(cfgv), "steps": steps, "src": "slow-write-at-stop"})
+    return out
+
+
+PLANS["C08"]["fixed"] = _c08_fixed()
 PLANS["C10"]["fixed"] = _c10_fixed()
 PLANS["C10"]["ifis"] = ("vf0", "vf1")
 PLANS["C07"]["fixed"] = concurrent_write_failures()
